@@ -41,6 +41,14 @@ func (h *H) crashCuts(a *Adapter) {
 				items[t].pending, items[t].unacked = false, true
 				ackTag[c.Ack] = t
 			}
+		case "deq-plain":
+			if c.OK {
+				t := tagOfData(c.Data)
+				if items[t] == nil {
+					items[t] = &st{}
+				}
+				items[t].pending = false // gone from the adapter without a receipt
+			}
 		case "ack":
 			if c.OK {
 				if t, ok := ackTag[c.Ack]; ok && items[t] != nil {
@@ -193,6 +201,35 @@ func init() {
 					}
 					if len(ad.items) != 0 || len(ad.unacked) != 0 {
 						h.viol("C13", "C13.drain", fmt.Sprintf("the consumers left %d items pending and %d unacknowledged on the shared adapter", len(ad.items), len(ad.unacked)))
+					}
+					h.NoRest = true
+					h.End()
+				},
+			})
+		}
+		// announcements that lag behind the stores (pub/sub): every item must still be drained
+		for _, c := range []int{1, 2} {
+			c := c
+			Register(&Scenario{
+				Name:  name("dist-async/%s/c%d", qk, c),
+				Props: []string{"C13", "C03", "C11"},
+				Mode:  "NB", Quick: 2, Thorough: 3, Shards: 8,
+				Body: func(h *H) {
+					ad := h.NewAdapter(qk.IsPrio())
+					ad.AsyncNotify = true
+					w := h.NewWorker(Plain, c)
+					q := w.Bind(qk, ad)
+					h.Quiesce(true)
+					for i := 0; i <= c; i++ {
+						q.Add(i, AddOpt{WithID: true, Prio: c - i})
+					}
+					h.Quiesce(true)
+					h.crashCuts(ad)
+					if s := int(w.Wk.Metrics().Submitted()); s != w.Notified {
+						h.viol("C13", "C13.submitted", fmt.Sprintf("consumer counted %d submissions for %d notifications", s, w.Notified))
+					}
+					if len(ad.items) != 0 || len(ad.unacked) != 0 {
+						h.viol("C13", "C13.drain", "items announced after later items had been stored were not all processed")
 					}
 					h.NoRest = true
 					h.End()
